@@ -295,16 +295,16 @@ theorem unicodesToRetain_gids (p : PlanIn) (g : Nat) (hg : g ∈ p.gids) (hlt : 
   · simp [hg, hlt]
 
 theorem unicodesToRetain_cmap (p : PlanIn) (hc : (p.cmap.map (·.1)).Pairwise (· ≠ ·)) (cp g : Nat)
-    (hm : (cp, g) ∈ p.cmap) (hcp : cp ∈ p.unicodes) : (cp, g) ∈ (unicodesToRetain p).1 := by
+    (hm : (cp, g) ∈ p.cmap) (hcp : cp ∈ p.unicodes) (hg : g < p.num) : (cp, g) ∈ (unicodesToRetain p).1 := by
   unfold unicodesToRetain
   split
   · simp only [List.mem_filterMap]
-    exact ⟨cp, hcp, by simp [lookupNat_of_mem hc hm]⟩
+    exact ⟨cp, hcp, by simp [lookupNat_of_mem hc hm, hg]⟩
   · simp only [List.mem_filter]
-    exact ⟨hm, by simp [hcp]⟩
+    exact ⟨hm, by simp [hcp, hg]⟩
 
 theorem unicodesToRetain_fst_origin (p : PlanIn) (cg : Nat × Nat) (h : cg ∈ (unicodesToRetain p).1) :
-    cg ∈ p.cmap ∧ (cg.1 ∈ p.unicodes ∨ cg.2 ∈ p.gids) := by
+    cg ∈ p.cmap ∧ (cg.1 ∈ p.unicodes ∨ cg.2 ∈ p.gids) ∧ cg.2 < p.num := by
   unfold unicodesToRetain at h
   split at h
   · simp only [List.mem_filterMap] at h
@@ -312,13 +312,17 @@ theorem unicodesToRetain_fst_origin (p : PlanIn) (cg : Nat × Nat) (h : cg ∈ (
     cases hl : lookupNat cp p.cmap with
     | none => simp [hl] at hopt
     | some g =>
-      simp [hl] at hopt
-      subst hopt
-      exact ⟨lookupNat_mem hl, Or.inl hcp⟩
+      simp only [hl] at hopt
+      split at hopt
+      · rename_i hg
+        simp at hopt
+        subst hopt
+        exact ⟨lookupNat_mem hl, Or.inl hcp, hg⟩
+      · cases hopt
   · simp only [List.mem_filter] at h
     obtain ⟨hm, hsel⟩ := h
     simp at hsel
-    exact ⟨hm, hsel.symm⟩
+    exact ⟨hm, hsel.1.symm, hsel.2⟩
 
 theorem unicodesToRetain_snd_origin (p : PlanIn) (g : Nat) (h : g ∈ (unicodesToRetain p).2) :
     g ∈ p.gids ∧ g < p.num := by
@@ -347,5 +351,676 @@ theorem hmtxLsb_map_range (f : Nat → Nat × Nat) (g : Nat → Nat) (nh k new :
     rw [hnone]
     have hlt2 : new - nh < k := by omega
     simp [hlt2, hc]
+
+/-! ### loca offsets -/
+
+/-- bytes a kept glyph occupies in the output glyf table -/
+def slotSize (pad : Bool) (g : Bytes) : Nat := if pad then paddedSize g.length else g.length
+
+/-- the glyph bytes as embedded (with the padding byte of the short format) -/
+def slotBytes (pad : Bool) (g : Bytes) : Bytes := if pad ∧ g.length % 2 = 1 then g ++ [0] else g
+
+theorem slotBytes_length (pad : Bool) (g : Bytes) : (slotBytes pad g).length = slotSize pad g := by
+  unfold slotBytes slotSize paddedSize
+  cases pad <;> simp
+  split <;> simp <;> omega
+
+/-- specification of loca entry `j`: total size of the kept glyphs whose new id is below `j` -/
+def offAt (pad : Bool) (gs : List (Nat × Bytes)) (j : Nat) : Nat :=
+  ((gs.filter (fun p => p.1 < j)).map (fun p => slotSize pad p.2)).sum
+
+theorem offAt_nil (pad : Bool) (j : Nat) : offAt pad [] j = 0 := by simp [offAt]
+
+theorem offAt_cons_lt (pad : Bool) (gid : Nat) (g : Bytes) (rest : List (Nat × Bytes)) (j : Nat) (h : gid < j) :
+    offAt pad ((gid, g) :: rest) j = slotSize pad g + offAt pad rest j := by
+  simp [offAt, h]
+
+theorem offAt_cons_ge (pad : Bool) (gid : Nat) (g : Bytes) (rest : List (Nat × Bytes)) (j : Nat) (h : ¬ gid < j) :
+    offAt pad ((gid, g) :: rest) j = offAt pad rest j := by
+  simp [offAt, h]
+
+theorem offAt_of_all_ge (pad : Bool) (j : Nat) : ∀ (gs : List (Nat × Bytes)), (∀ p ∈ gs, j ≤ p.1) → offAt pad gs j = 0 := by
+  intro gs
+  induction gs with
+  | nil => intro _; exact offAt_nil pad j
+  | cons hd tl ih =>
+    obtain ⟨a, b⟩ := hd
+    intro h
+    have ha : ¬ a < j := by have := h (a, b) (by simp); simp at this; omega
+    rw [offAt_cons_ge pad a b tl j ha]
+    exact ih (fun p hp => h p (by simp [hp]))
+
+theorem offAt_mono (pad : Bool) (j k : Nat) (hjk : j ≤ k) : ∀ (gs : List (Nat × Bytes)), offAt pad gs j ≤ offAt pad gs k := by
+  intro gs
+  induction gs with
+  | nil => simp [offAt_nil]
+  | cons hd tl ih =>
+    obtain ⟨a, b⟩ := hd
+    by_cases h1 : a < j
+    · rw [offAt_cons_lt pad a b tl j h1, offAt_cons_lt pad a b tl k (by omega)]; omega
+    · rw [offAt_cons_ge pad a b tl j h1]
+      by_cases h2 : a < k
+      · rw [offAt_cons_lt pad a b tl k h2]; omega
+      · rw [offAt_cons_ge pad a b tl k h2]; exact ih
+
+theorem offAt_even (j : Nat) : ∀ (gs : List (Nat × Bytes)), offAt true gs j % 2 = 0 := by
+  intro gs
+  induction gs with
+  | nil => simp [offAt_nil]
+  | cons hd tl ih =>
+    obtain ⟨a, b⟩ := hd
+    by_cases h1 : a < j
+    · rw [offAt_cons_lt true a b tl j h1]
+      have : slotSize true b % 2 = 0 := by unfold slotSize paddedSize; simp; omega
+      omega
+    · rw [offAt_cons_ge true a b tl j h1]; exact ih
+
+/-- the total the format decision looks at -/
+def totalSize (pad : Bool) (gs : List (Nat × Bytes)) : Nat := (gs.map (fun p => slotSize pad p.2)).sum
+
+theorem offAt_le_total (pad : Bool) (j : Nat) : ∀ (gs : List (Nat × Bytes)), offAt pad gs j ≤ totalSize pad gs := by
+  intro gs
+  induction gs with
+  | nil => simp [offAt_nil]
+  | cons hd tl ih =>
+    obtain ⟨a, b⟩ := hd
+    by_cases h1 : a < j
+    · rw [offAt_cons_lt pad a b tl j h1]; simp [totalSize] at ih ⊢; omega
+    · rw [offAt_cons_ge pad a b tl j h1]; simp [totalSize] at ih ⊢; omega
+
+theorem locaOffsetsGo_length (pad : Bool) (nout : Nat) : ∀ (gs : List (Nat × Bytes)) (last offset : Nat),
+    (gs.map (·.1)).Pairwise (· < ·) → (∀ p ∈ gs, last ≤ p.1 ∧ p.1 < nout) →
+    (locaOffsetsGo pad nout gs last offset).length = nout - last := by
+  intro gs
+  induction gs with
+  | nil => intro last offset _ _; simp [locaOffsetsGo]
+  | cons hd tl ih =>
+    obtain ⟨gid, g⟩ := hd
+    intro last offset hs hb
+    have hg := hb (gid, g) (by simp)
+    simp only at hg
+    simp only [List.map_cons, List.pairwise_cons] at hs
+    have hnext : (if last < gid then gid else last) + 1 = gid + 1 := by split <;> omega
+    simp only [locaOffsetsGo, hnext, List.length_append, List.length_replicate, List.length_cons]
+    rw [ih (gid + 1) _ hs.2 (fun p hp => by
+      have h1 := hs.1 p.1 (by simp; exact ⟨p.2, hp⟩)
+      have h2 := hb p (by simp [hp])
+      omega)]
+    omega
+
+/-- every loca entry is the specified offset -/
+theorem locaOffsetsGo_getElem (pad : Bool) (nout : Nat) : ∀ (gs : List (Nat × Bytes)) (last offset : Nat),
+    (gs.map (·.1)).Pairwise (· < ·) → (∀ p ∈ gs, last ≤ p.1 ∧ p.1 < nout) →
+    ∀ i, i < nout - last →
+      (locaOffsetsGo pad nout gs last offset)[i]? = some (offset + offAt pad gs (last + 1 + i)) := by
+  intro gs
+  induction gs with
+  | nil =>
+    intro last offset _ _ i hi
+    simp [locaOffsetsGo, offAt_nil, hi]
+  | cons hd tl ih =>
+    obtain ⟨gid, g⟩ := hd
+    intro last offset hs hb i hi
+    have hg := hb (gid, g) (by simp)
+    simp only at hg
+    simp only [List.map_cons, List.pairwise_cons] at hs
+    have htl : ∀ p ∈ tl, gid + 1 ≤ p.1 ∧ p.1 < nout := fun p hp => by
+      have h1 := hs.1 p.1 (by simp; exact ⟨p.2, hp⟩)
+      have h2 := hb p (by simp [hp])
+      omega
+    have hnext : (if last < gid then gid else last) + 1 = gid + 1 := by split <;> omega
+    simp only [locaOffsetsGo, hnext]
+    by_cases h1 : i < gid - last
+    · rw [List.getElem?_append_left (by simp; exact h1)]
+      rw [offAt_cons_ge pad gid g tl _ (by omega)]
+      rw [offAt_of_all_ge pad _ tl (fun p hp => by have := htl p hp; omega)]
+      simp [h1]
+    · rw [List.getElem?_append_right (by simp; omega)]
+      simp only [List.length_replicate]
+      by_cases h2 : i = gid - last
+      · have : i - (gid - last) = 0 := by omega
+        rw [this]
+        simp only [List.getElem?_cons_zero, Option.some.injEq]
+        rw [offAt_cons_lt pad gid g tl _ (by omega)]
+        rw [offAt_of_all_ge pad _ tl (fun p hp => by have := htl p hp; omega)]
+        cases pad <;> simp [slotSize]
+      · obtain ⟨i', hi'⟩ : ∃ i', i - (gid - last) = i' + 1 := ⟨i - (gid - last) - 1, by omega⟩
+        rw [hi']
+        simp only [List.getElem?_cons_succ]
+        rw [ih (gid + 1) _ hs.2 htl i' (by omega)]
+        rw [offAt_cons_lt pad gid g tl _ (by omega)]
+        have : gid + 1 + 1 + i' = last + 1 + i := by omega
+        rw [this]
+        cases pad <;> simp [slotSize] <;> omega
+
+theorem locaOffsets_length (pad : Bool) (nout : Nat) (gs : List (Nat × Bytes))
+    (hs : (gs.map (·.1)).Pairwise (· < ·)) (hb : ∀ p ∈ gs, p.1 < nout) :
+    (locaOffsets pad nout gs).length = nout + 1 := by
+  simp [locaOffsets, locaOffsetsGo_length pad nout gs 0 0 hs (fun p hp => ⟨Nat.zero_le _, hb p hp⟩)]
+
+theorem locaOffsets_getElem (pad : Bool) (nout : Nat) (gs : List (Nat × Bytes))
+    (hs : (gs.map (·.1)).Pairwise (· < ·)) (hb : ∀ p ∈ gs, p.1 < nout) (j : Nat) (hj : j ≤ nout) :
+    (locaOffsets pad nout gs)[j]? = some (offAt pad gs j) := by
+  unfold locaOffsets
+  cases j with
+  | zero =>
+    simp
+    exact (offAt_of_all_ge pad 0 gs (fun p _ => Nat.zero_le _)).symm
+  | succ i =>
+    simp only [List.getElem?_cons_succ]
+    rw [locaOffsetsGo_getElem pad nout gs 0 0 hs (fun p hp => ⟨Nat.zero_le _, hb p hp⟩) i (by omega)]
+    simp
+    congr 1; omega
+
+/-- the glyf bytes split at a kept glyph: everything before it has total length `offAt … gid` -/
+theorem glyfBytes_resolve (pad : Bool) : ∀ (pre : List (Nat × Bytes)) (gid : Nat) (g : Bytes) (post : List (Nat × Bytes)),
+    ((pre ++ (gid, g) :: post).map (·.1)).Pairwise (· < ·) →
+    offAt pad (pre ++ (gid, g) :: post) (gid + 1) = offAt pad (pre ++ (gid, g) :: post) gid + slotSize pad g ∧
+    ((glyfBytes pad ((pre ++ (gid, g) :: post).map (·.2))).drop (offAt pad (pre ++ (gid, g) :: post) gid)).take
+        (slotSize pad g) = slotBytes pad g := by
+  intro pre
+  induction pre with
+  | nil =>
+    intro gid g post hs
+    simp only [List.nil_append, List.map_cons, List.pairwise_cons] at hs
+    have hpost : ∀ p ∈ post, gid + 1 ≤ p.1 := fun p hp => by
+      have := hs.1 p.1 (by simp; exact ⟨p.2, hp⟩); omega
+    simp only [List.nil_append]
+    rw [offAt_cons_lt pad gid g post _ (by omega), offAt_cons_ge pad gid g post _ (by omega)]
+    rw [offAt_of_all_ge pad _ post hpost, offAt_of_all_ge pad _ post (fun p hp => by have := hpost p hp; omega)]
+    refine ⟨by omega, ?_⟩
+    simp only [List.map_cons, glyfBytes, List.flatMap_cons, List.drop_zero]
+    have : (if pad = true ∧ g.length % 2 = 1 then g ++ [0] else g) = slotBytes pad g := rfl
+    rw [this, ← slotBytes_length pad g, List.take_left']
+    rfl
+  | cons hd tl ih =>
+    obtain ⟨a, b⟩ := hd
+    intro gid g post hs
+    simp only [List.cons_append, List.map_cons, List.pairwise_cons] at hs
+    have ha : a < gid := hs.1 gid (by simp)
+    obtain ⟨e1, e2⟩ := ih gid g post hs.2
+    simp only [List.cons_append]
+    rw [offAt_cons_lt pad a b _ _ (by omega), offAt_cons_lt pad a b _ _ ha]
+    refine ⟨by omega, ?_⟩
+    simp only [List.map_cons, glyfBytes, List.flatMap_cons]
+    have hb : (if pad = true ∧ b.length % 2 = 1 then b ++ [0] else b) = slotBytes pad b := rfl
+    rw [hb]
+    have : slotSize pad b + offAt pad (tl ++ (gid, g) :: post) gid
+        = (slotBytes pad b).length + offAt pad (tl ++ (gid, g) :: post) gid := by rw [slotBytes_length]
+    rw [this, ← List.drop_drop, List.drop_left']
+    · exact e2
+    · rfl
+
+/-! ### loca encodings -/
+
+/-- reading a short loca table: u16 entries, doubled -/
+def decodeShortLoca : Bytes → List Nat
+  | a :: b :: rest => (a * 256 + b) * 2 :: decodeShortLoca rest
+  | _ => []
+
+/-- reading a long loca table: u32 entries -/
+def decodeLongLoca : Bytes → List Nat
+  | a :: b :: c :: d :: rest => (a * 16777216 + b * 65536 + c * 256 + d) :: decodeLongLoca rest
+  | _ => []
+
+theorem decodeShortLoca_encode : ∀ (offs : List Nat), (∀ o ∈ offs, o % 2 = 0 ∧ o < 131072) →
+    decodeShortLoca (offs.flatMap (fun o => be16 (o / 2 % 65536))) = offs := by
+  intro offs
+  induction offs with
+  | nil => intro _; simp [decodeShortLoca]
+  | cons o tl ih =>
+    intro h
+    have ho := h o (by simp)
+    have ih' := ih (fun x hx => h x (by simp [hx]))
+    simp only [be16] at ih'
+    simp only [List.flatMap_cons, be16, List.cons_append, List.nil_append, decodeShortLoca]
+    rw [ih']
+    congr 1
+    omega
+
+theorem decodeLongLoca_encode : ∀ (offs : List Nat), (∀ o ∈ offs, o < 4294967296) →
+    decodeLongLoca (offs.flatMap (fun o => be32 (o % 4294967296))) = offs := by
+  intro offs
+  induction offs with
+  | nil => intro _; simp [decodeLongLoca]
+  | cons o tl ih =>
+    intro h
+    have ho := h o (by simp)
+    have ih' := ih (fun x hx => h x (by simp [hx]))
+    simp only [be32] at ih'
+    simp only [List.flatMap_cons, be32, List.cons_append, List.nil_append, decodeLongLoca]
+    rw [ih']
+    congr 1
+    omega
+
+theorem sum_map_le {α : Type} (f g : α → Nat) (h : ∀ x, f x ≤ g x) : ∀ (l : List α), (l.map f).sum ≤ (l.map g).sum := by
+  intro l
+  induction l with
+  | nil => simp
+  | cons a tl ih => simp only [List.map_cons, List.sum_cons]; have := h a; omega
+
+/-! ### closure with a "limit fired" flag (specification device) -/
+
+/-- `closureGo` instrumented with a flag that records whether the nesting limit or the operation
+budget stopped the descent into a glyph that has components. -/
+def closureGoF (comps : List (List Nat)) : Nat → Nat → (List Nat × Int × Bool) → (List Nat × Int × Bool)
+  | rem, gid, (set, ops, cut) =>
+    if set.contains gid then (set, ops, cut) else
+    match rem with
+    | 0 => (gid :: set, ops, cut || !(compsOf comps gid).isEmpty)
+    | r + 1 =>
+      if ops - 1 < 0 then (gid :: set, ops - 1, cut || !(compsOf comps gid).isEmpty) else
+      (compsOf comps gid).foldl (fun st c => closureGoF comps r c st) (gid :: set, ops - 1, cut)
+
+theorem closureGoF_unfold (comps : List (List Nat)) (rem gid : Nat) (set : List Nat) (ops : Int) (cut : Bool) :
+    closureGoF comps rem gid (set, ops, cut) =
+      if set.contains gid then (set, ops, cut) else
+      match rem with
+      | 0 => (gid :: set, ops, cut || !(compsOf comps gid).isEmpty)
+      | r + 1 =>
+        if ops - 1 < 0 then (gid :: set, ops - 1, cut || !(compsOf comps gid).isEmpty) else
+        (compsOf comps gid).foldl (fun st c => closureGoF comps r c st) (gid :: set, ops - 1, cut) := by
+  cases rem <;> simp [closureGoF]
+
+theorem closureGoF_zero (comps : List (List Nat)) (gid : Nat) (set : List Nat) (ops : Int) (cut : Bool) :
+    closureGoF comps 0 gid (set, ops, cut) =
+      if set.contains gid then (set, ops, cut) else (gid :: set, ops, cut || !(compsOf comps gid).isEmpty) := by
+  simp [closureGoF]
+
+theorem closureGoF_succ (comps : List (List Nat)) (r gid : Nat) (set : List Nat) (ops : Int) (cut : Bool) :
+    closureGoF comps (r + 1) gid (set, ops, cut) =
+      if set.contains gid then (set, ops, cut) else
+      if ops - 1 < 0 then (gid :: set, ops - 1, cut || !(compsOf comps gid).isEmpty) else
+      (compsOf comps gid).foldl (fun st c => closureGoF comps r c st) (gid :: set, ops - 1, cut) := by
+  simp [closureGoF]
+
+/-- erasing the flag gives `closureGo` -/
+theorem closureGoF_erase (comps : List (List Nat)) :
+    ∀ (rem gid : Nat) (st : List Nat × Int × Bool),
+      ((closureGoF comps rem gid st).1, (closureGoF comps rem gid st).2.1) = closureGo comps rem gid (st.1, st.2.1) := by
+  intro rem
+  induction rem with
+  | zero =>
+    intro gid st
+    obtain ⟨set, ops, cut⟩ := st
+    rw [closureGoF_unfold, closureGo_unfold]
+    split <;> simp
+  | succ r ih =>
+    intro gid st
+    obtain ⟨set, ops, cut⟩ := st
+    rw [closureGoF_unfold, closureGo_unfold]
+    split
+    · simp
+    · simp only
+      split
+      · simp
+      · have key : ∀ (cs : List Nat) (st : List Nat × Int × Bool),
+            ((cs.foldl (fun st c => closureGoF comps r c st) st).1,
+             (cs.foldl (fun st c => closureGoF comps r c st) st).2.1) =
+            cs.foldl (fun st c => closureGo comps r c st) (st.1, st.2.1) := by
+          intro cs
+          induction cs with
+          | nil => intro st; simp
+          | cons c cs ihc =>
+            intro st
+            simp only [List.foldl_cons]
+            rw [ihc, ih c st]
+        exact key _ _
+
+/-- the flag is sticky -/
+theorem closureGoF_cut_mono (comps : List (List Nat)) :
+    ∀ (rem gid : Nat) (st : List Nat × Int × Bool), st.2.2 = true → (closureGoF comps rem gid st).2.2 = true := by
+  intro rem
+  induction rem with
+  | zero =>
+    intro gid st h
+    obtain ⟨set, ops, cut⟩ := st
+    simp only at h
+    rw [closureGoF_unfold]
+    split <;> simp [h]
+  | succ r ih =>
+    intro gid st h
+    obtain ⟨set, ops, cut⟩ := st
+    simp only at h
+    rw [closureGoF_unfold]
+    split
+    · simp [h]
+    · simp only
+      split
+      · simp [h]
+      · have key : ∀ (cs : List Nat) (st : List Nat × Int × Bool), st.2.2 = true →
+            (cs.foldl (fun st c => closureGoF comps r c st) st).2.2 = true := by
+          intro cs
+          induction cs with
+          | nil => intro st h; simpa using h
+          | cons c cs ihc => intro st h; simp only [List.foldl_cons]; exact ihc _ (ih c st h)
+        exact key _ _ h
+
+theorem closureGoF_mono (comps : List (List Nat)) (rem gid : Nat) (st : List Nat × Int × Bool) (x : Nat)
+    (hx : x ∈ st.1) : x ∈ (closureGoF comps rem gid st).1 := by
+  have h := closureGoF_erase comps rem gid st
+  have h1 : (closureGoF comps rem gid st).1 = (closureGo comps rem gid (st.1, st.2.1)).1 := by rw [← h]
+  rw [h1]
+  exact closureGo_mono comps rem gid _ x hx
+
+theorem closureGoF_root (comps : List (List Nat)) (rem gid : Nat) (st : List Nat × Int × Bool) :
+    gid ∈ (closureGoF comps rem gid st).1 := by
+  have h := closureGoF_erase comps rem gid st
+  have h1 : (closureGoF comps rem gid st).1 = (closureGo comps rem gid (st.1, st.2.1)).1 := by rw [← h]
+  rw [h1]
+  exact closureGo_root comps rem gid _
+
+/-- **DFS invariant.** If no limit fired, every glyph added by the call has all its components in
+the resulting set. -/
+theorem closureGoF_closed (comps : List (List Nat)) :
+    ∀ (rem gid : Nat) (st : List Nat × Int × Bool), (closureGoF comps rem gid st).2.2 = false →
+      ∀ x ∈ (closureGoF comps rem gid st).1, x ∉ st.1 → ∀ c ∈ compsOf comps x, c ∈ (closureGoF comps rem gid st).1 := by
+  intro rem
+  induction rem with
+  | zero =>
+    intro gid st hcut x hx hnx c hc
+    obtain ⟨set, ops, cut⟩ := st
+    rw [closureGoF_zero] at hcut hx ⊢
+    split at hx
+    · exact absurd hx hnx
+    · rename_i hcont
+      simp only [hcont, Bool.false_eq_true, if_false] at hcut ⊢
+      simp at hx
+      rcases hx with rfl | hx
+      · simp at hcut
+        rw [hcut.2] at hc; simp at hc
+      · exact absurd hx hnx
+  | succ r ih =>
+    intro gid st hcut x hx hnx c hc
+    obtain ⟨set, ops, cut⟩ := st
+    rw [closureGoF_succ] at hcut hx ⊢
+    split at hx
+    · exact absurd hx hnx
+    · rename_i hcont
+      simp only [hcont, Bool.false_eq_true, if_false] at hcut ⊢
+      split at hx
+      · rename_i hops
+        simp only [hops, if_true] at hcut ⊢
+        simp at hx
+        rcases hx with rfl | hx
+        · simp at hcut
+          rw [hcut.2] at hc; simp at hc
+        · exact absurd hx hnx
+      · rename_i hops
+        simp only [hops, if_false] at hcut ⊢
+        -- fold over the children
+        have key : ∀ (cs : List Nat) (st : List Nat × Int × Bool),
+            (cs.foldl (fun st c => closureGoF comps r c st) st).2.2 = false →
+            (∀ c ∈ cs, c ∈ (cs.foldl (fun st c => closureGoF comps r c st) st).1) ∧
+            (∀ y ∈ st.1, y ∈ (cs.foldl (fun st c => closureGoF comps r c st) st).1) ∧
+            (∀ y ∈ (cs.foldl (fun st c => closureGoF comps r c st) st).1, y ∉ st.1 →
+              ∀ c ∈ compsOf comps y, c ∈ (cs.foldl (fun st c => closureGoF comps r c st) st).1) := by
+          intro cs
+          induction cs with
+          | nil =>
+            intro st _
+            simp only [List.foldl_nil, List.not_mem_nil, false_imp_iff, implies_true, true_and]
+            exact ⟨fun y hy => hy, fun y hy hny => absurd hy hny⟩
+          | cons c0 cs ihc =>
+            intro st hf
+            simp only [List.foldl_cons] at hf ⊢
+            obtain ⟨k1, k2, k3⟩ := ihc (closureGoF comps r c0 st) hf
+            have hcut0 : (closureGoF comps r c0 st).2.2 = false := by
+              cases hh : (closureGoF comps r c0 st).2.2 with
+              | false => rfl
+              | true =>
+                have hfold : ∀ (cs : List Nat) (st : List Nat × Int × Bool), st.2.2 = true →
+                    (cs.foldl (fun st c => closureGoF comps r c st) st).2.2 = true := by
+                  intro cs
+                  induction cs with
+                  | nil => intro st h; simpa using h
+                  | cons c cs ih2 => intro st h; simp only [List.foldl_cons]; exact ih2 _ (closureGoF_cut_mono comps r c st h)
+                rw [hfold cs _ hh] at hf; cases hf
+            refine ⟨?_, ?_, ?_⟩
+            · intro c' hc'
+              simp at hc'
+              rcases hc' with rfl | hc'
+              · exact k2 _ (closureGoF_root comps r c' st)
+              · exact k1 c' hc'
+            · intro y hy
+              exact k2 y (closureGoF_mono comps r c0 st y hy)
+            · intro y hy hny c' hc'
+              by_cases hmid : y ∈ (closureGoF comps r c0 st).1
+              · exact k2 c' (ih c0 st hcut0 y hmid hny c' hc')
+              · exact k3 y hy hmid c' hc'
+        obtain ⟨k1, k2, k3⟩ := key (compsOf comps gid) (gid :: set, ops - 1, cut) hcut
+        by_cases hxg : x = gid
+        · subst hxg; exact k1 c hc
+        · exact k3 x hx (by simp [hxg, hnx]) c hc
+
+/-- `closureAll` with the flag -/
+def closureAllF (comps : List (List Nat)) (budget : Int) (roots : List Nat) (st : List Nat × Bool) : List Nat × Bool :=
+  roots.foldl (fun s g =>
+    let r := closureGoF comps NESTING_LEVELS g (s.1, budget, s.2)
+    (r.1, r.2.2)) st
+
+theorem closureAllF_erase (comps : List (List Nat)) (budget : Int) :
+    ∀ (roots : List Nat) (st : List Nat × Bool), (closureAllF comps budget roots st).1 = closureAll comps budget roots st.1 := by
+  intro roots
+  induction roots with
+  | nil => intro st; simp [closureAllF, closureAll]
+  | cons g gs ih =>
+    intro st
+    simp only [closureAllF, closureAll, List.foldl_cons] at ih ⊢
+    rw [ih]
+    have := closureGoF_erase comps NESTING_LEVELS g (st.1, budget, st.2)
+    simp only at this
+    rw [← this]
+
+theorem closureAllF_cut_mono (comps : List (List Nat)) (budget : Int) :
+    ∀ (roots : List Nat) (st : List Nat × Bool), st.2 = true → (closureAllF comps budget roots st).2 = true := by
+  intro roots
+  induction roots with
+  | nil => intro st h; simpa [closureAllF] using h
+  | cons g gs ih =>
+    intro st h
+    simp only [closureAllF, List.foldl_cons] at ih ⊢
+    exact ih _ (closureGoF_cut_mono comps _ g (st.1, budget, st.2) h)
+
+/-- if no limit fired in any of the per-root calls, the set stays closed under components -/
+theorem closureAllF_closed (comps : List (List Nat)) (budget : Int) :
+    ∀ (roots : List Nat) (st : List Nat × Bool),
+      (closureAllF comps budget roots st).2 = false →
+      (∀ x ∈ st.1, ∀ c ∈ compsOf comps x, c ∈ st.1) →
+      ∀ x ∈ (closureAllF comps budget roots st).1, ∀ c ∈ compsOf comps x, c ∈ (closureAllF comps budget roots st).1 := by
+  intro roots
+  induction roots with
+  | nil => intro st _ h; simpa [closureAllF] using h
+  | cons g gs ih =>
+    intro st hcut hclosed
+    simp only [closureAllF, List.foldl_cons] at ih hcut ⊢
+    apply ih _ hcut
+    -- the set after the first root is closed
+    have hcut1 : (closureGoF comps NESTING_LEVELS g (st.1, budget, st.2)).2.2 = false := by
+      cases hh : (closureGoF comps NESTING_LEVELS g (st.1, budget, st.2)).2.2 with
+      | false => rfl
+      | true =>
+        have := closureAllF_cut_mono comps budget gs
+          ((closureGoF comps NESTING_LEVELS g (st.1, budget, st.2)).1, (closureGoF comps NESTING_LEVELS g (st.1, budget, st.2)).2.2) hh
+        simp only [closureAllF] at this
+        rw [this] at hcut; cases hcut
+    intro x hx c hc
+    simp only at hx ⊢
+    by_cases hin : x ∈ st.1
+    · exact closureGoF_mono comps _ g (st.1, budget, st.2) c (hclosed x hin c hc)
+    · exact closureGoF_closed comps _ g (st.1, budget, st.2) hcut1 x hx hin c hc
+
+/-- did the nesting limit or the operation budget stop the composite closure of this plan anywhere? -/
+def planLimitFired (p : PlanIn) : Bool :=
+  (closureAllF p.comps (planBudget p) (planColred p) ([], false)).2
+
+theorem mapM_option_spec {α β : Type} (f : α → Option β) : ∀ (l : List α) (l' : List β), l.mapM f = some l' →
+    (∀ y ∈ l', ∃ x ∈ l, f x = some y) ∧ (∀ x ∈ l, ∃ y ∈ l', f x = some y) := by
+  intro l
+  induction l with
+  | nil => intro l' h; simp at h; subst h; simp
+  | cons a tl ih =>
+    intro l' h
+    rw [List.mapM_cons] at h
+    cases hfa : f a with
+    | none => simp [hfa] at h
+    | some b =>
+      cases htl : tl.mapM f with
+      | none => simp [hfa, htl] at h
+      | some bs =>
+        simp [hfa, htl] at h
+        subst h
+        obtain ⟨i1, i2⟩ := ih bs htl
+        constructor
+        · intro y hy
+          simp at hy
+          rcases hy with rfl | hy
+          · exact ⟨a, by simp, hfa⟩
+          · obtain ⟨x, hx, hfx⟩ := i1 y hy
+            exact ⟨x, by simp [hx], hfx⟩
+        · intro x hx
+          simp at hx
+          rcases hx with rfl | hx
+          · exact ⟨b, by simp, hfa⟩
+          · obtain ⟨y, hy, hfx⟩ := i2 x hx
+            exact ⟨y, by simp [hy], hfx⟩
+
+theorem u2g_spec (n2o : List (Nat × Nat)) (l u2g : List (Nat × Nat))
+    (hu : l.mapM (fun cg => (oldToNew n2o cg.2).map (fun n => (cg.1, n))) = some u2g) :
+    (∀ cp new, (cp, new) ∈ u2g → ∃ old, (cp, old) ∈ l ∧ oldToNew n2o old = some new) ∧
+    (∀ cp old, (cp, old) ∈ l → ∃ new, (cp, new) ∈ u2g ∧ oldToNew n2o old = some new) := by
+  obtain ⟨m1, m2⟩ := mapM_option_spec _ _ _ hu
+  constructor
+  · intro cp new hm
+    obtain ⟨cg, hcg, hf⟩ := m1 (cp, new) hm
+    cases hon : oldToNew n2o cg.2 with
+    | none => simp [hon] at hf
+    | some n =>
+      simp [hon] at hf
+      obtain ⟨e1, e2⟩ := hf
+      subst e1 e2
+      exact ⟨cg.2, hcg, hon⟩
+  · intro cp old hm
+    obtain ⟨y, hy, hf⟩ := m2 (cp, old) hm
+    cases hon : oldToNew n2o old with
+    | none => simp [hon] at hf
+    | some n =>
+      simp [hon] at hf
+      subst hf
+      exact ⟨n, hy, rfl⟩
+
+/-! ### the plan never hits its `unwrap()` -/
+
+theorem oldToNew_map_self (gs : List Nat) (g : Nat) (h : g ∈ gs) :
+    oldToNew (gs.map (fun g => (g, g))) g = some g := by
+  unfold oldToNew
+  induction gs with
+  | nil => simp at h
+  | cons a tl ih =>
+    simp only [List.map_cons, lookupNat]
+    by_cases hag : a = g
+    · simp [hag]
+    · simp only [hag, if_false]
+      simp at h
+      rcases h with rfl | h
+      · exact absurd rfl hag
+      · exact ih h
+
+theorem lookupNat_isSome_of_mem_keys (k : Nat) : ∀ (l : List (Nat × Nat)), k ∈ l.map (·.1) → (lookupNat k l).isSome := by
+  intro l
+  induction l with
+  | nil => intro h; simp at h
+  | cons hd tl ih =>
+    obtain ⟨a, b⟩ := hd
+    intro h
+    simp only [lookupNat]
+    by_cases hak : a = k
+    · simp [hak]
+    · simp only [hak, if_false]
+      simp at h
+      rcases h with rfl | h
+      · exact absurd rfl hak
+      · exact ih (by simp; exact h)
+
+/-- every glyph of the glyph set has an image under the glyph map -/
+theorem oldToNew_isSome (flags : Nat) (gs : List Nat) (hlen : gs.length ≤ 65536) (g : Nat) (h : g ∈ gs) :
+    (oldToNew (gidMap flags gs).1 g).isSome := by
+  unfold oldToNew
+  apply lookupNat_isSome_of_mem_keys
+  rw [List.map_map]
+  have htake : gs.take 65536 = gs := List.take_of_length_le hlen
+  by_cases hf : hasFlag flags F_RETAIN_GIDS = true
+  · simp [gidMap, hf, Function.comp_def]; exact h
+  · have hf' : hasFlag flags F_RETAIN_GIDS = false := by simpa using hf
+    have : (gidMap flags gs).1.map ((fun x => x.1) ∘ fun no => (no.2, no.1)) = (gidMap flags gs).1.map (·.2) := by
+      simp [Function.comp_def]
+    rw [this, gidMap_renumber_snd flags gs hf', htake]
+    exact h
+
+theorem mapM_option_isSome {α β : Type} (f : α → Option β) : ∀ (l : List α), (∀ x ∈ l, (f x).isSome) → (l.mapM f).isSome := by
+  intro l
+  induction l with
+  | nil => intro _; simp
+  | cons a tl ih =>
+    intro h
+    rw [List.mapM_cons]
+    obtain ⟨b, hb⟩ := Option.isSome_iff_exists.mp (h a (by simp))
+    obtain ⟨bs, hbs⟩ := Option.isSome_iff_exists.mp (ih (fun x hx => h x (by simp [hx])))
+    simp [hb, hbs]
+
+/-! ### the plan, piecewise -/
+
+theorem makePlan_some (p : PlanIn) (pl : Plan) (h : makePlan p = some pl) :
+    pl.gsub = planGsub p ∧ pl.colred = planColred p ∧ pl.glyphset = planGlyphset p ∧
+    pl.n2o = (gidMap p.flags (planGlyphset p)).1 ∧ pl.nout = (gidMap p.flags (planGlyphset p)).2 ∧
+    (unicodesToRetain p).1.mapM
+      (fun cg => (oldToNew (gidMap p.flags (planGlyphset p)).1 cg.2).map (fun n => (cg.1, n))) = some pl.u2g := by
+  unfold makePlan at h
+  simp only at h
+  split at h
+  · cases h
+  · rename_i u2g hu
+    simp only [Option.some.injEq] at h
+    subst h
+    exact ⟨rfl, rfl, rfl, rfl, rfl, hu⟩
+
+theorem mem_planGsub (p : PlanIn) (g : Nat) :
+    g ∈ planGsub p ↔ g < p.num ∧ (g = 0 ∨ g ∈ (unicodesToRetain p).2 ∨
+      (∃ cg ∈ (unicodesToRetain p).1, cg.2 = g) ∨ g ∈ p.extraGsub) := by
+  unfold planGsub
+  rw [mem_sortedBelow]
+  simp only [List.mem_cons, List.mem_append, List.mem_map]
+  constructor
+  · rintro ⟨h1, h2⟩
+    refine ⟨h1, ?_⟩
+    rcases h2 with h | (h | h) | h
+    · exact Or.inl h
+    · exact Or.inr (Or.inl h)
+    · exact Or.inr (Or.inr (Or.inl h))
+    · exact Or.inr (Or.inr (Or.inr h))
+  · rintro ⟨h1, h2⟩
+    refine ⟨h1, ?_⟩
+    rcases h2 with h | h | h | h
+    · exact Or.inl h
+    · exact Or.inr (Or.inl (Or.inl h))
+    · exact Or.inr (Or.inl (Or.inr h))
+    · exact Or.inr (Or.inr h)
+
+theorem planGsub_sub_colred (p : PlanIn) (g : Nat) (h : g ∈ planGsub p) : g ∈ planColred p := by
+  unfold planColred
+  rw [mem_sortedBelow, List.mem_append]
+  exact ⟨((mem_planGsub p g).mp h).1, Or.inl h⟩
+
+theorem planColred_sub_glyphset (p : PlanIn) (g : Nat) (h : g ∈ planColred p) : g ∈ planGlyphset p := by
+  unfold planGlyphset
+  rw [mem_sortedBelow]
+  have hlt : g < p.num := by
+    unfold planColred at h; rw [mem_sortedBelow] at h; exact h.1
+  exact ⟨hlt, closureAll_roots _ _ _ _ g h⟩
+
+theorem sortedBelow_length_le (n : Nat) (s : List Nat) : (sortedBelow n s).length ≤ n := by
+  have : (sortedBelow n s).length ≤ (List.range n).length := by
+    unfold sortedBelow; exact List.length_filter_le _ _
+  simpa using this
 
 end FontVerif.Subset
